@@ -202,12 +202,17 @@ func (c *CompileResult) FirstError() string {
 }
 
 var panicSite = regexp.MustCompile(`(?m)^((?:compiler/|main\.)\S*?)\([^()]*\)$`)
+var assertLine = regexp.MustCompile(`(?m)^.*Assertion .* failed\.?$`)
 var panicMsg = regexp.MustCompile(`(?m)^(panic: .*|fatal error: .*)$`)
 
 // CrashSite normalises a Go crash to "function @ message".
 func CrashSite(p ProcResult) string {
 	st := StripANSI(p.Stderr + "\n" + p.Stdout)
 	m := panicMsg.FindString(st)
+	if a := assertLine.FindString(st); a != "" && m == "" {
+		// C-level abort inside the embedded QBE (assert / SIGABRT during cgo execution)
+		return "qbe @ " + Short(strings.TrimSpace(a), 160)
+	}
 	if m == "" {
 		if p.Signal != 0 && !p.CPUOut && !p.WallOut {
 			return fmt.Sprintf("signal %d", p.Signal)
@@ -220,6 +225,9 @@ func CrashSite(p ProcResult) string {
 	}
 	// first frame inside the compiler module after the panic line
 	idx := strings.Index(st, m)
+	if idx < 0 {
+		idx = 0
+	}
 	rest := st[idx:]
 	site := ""
 	for _, sm := range panicSite.FindAllStringSubmatch(rest, -1) {
